@@ -2,6 +2,8 @@
 
 package vxrt
 
+import "testing"
+
 // Intercepted by the symbolic executor (gosym/interp/ext_vx.go).
 
 func Byte(label string) byte
@@ -28,9 +30,14 @@ func CISymbolic()
 func Trimpath(on bool)
 func Freeze(p any, what string)
 func Shared(p any)
+func FileStamp(path string) string
+func Symlink(target, link string)
+func RunAsSubtest(f func(t *testing.T))
 func SharedGlobals(prefix string)
 func FrameFile(name string)
 func Symbolic() bool
+func Jitter()
+func Stagger()
 func Stdout() string
 func Flag(name, val string)
 func TestSources(path string, funcs ...string)
